@@ -9,6 +9,7 @@
   lines with that name, in order, as the hop receives them.
 -/
 import FwdVerif.Lemmas.C06
+import FwdVerif.Lemmas.C06Seq
 import FwdVerif.Lemmas.ReqUpgrade
 
 namespace FwdVerif
@@ -582,6 +583,209 @@ example :
   intro q
   subst q
   refine ⟨fun r hr => (by cases hr), ?_, ?_⟩ <;> with_unfolding_all decide
+
+/-! ## E. PAC-selected proxies over request sequences: the lookup keeps no history and is keyed by host:port -/
+
+/-- the `--credentials` lookup of the request pipeline for a PAC configuration is `pacSelect` on the
+    script's answer for the target host (after `--proxy-localhost direct` and `--direct-domains`) -/
+theorem c06_pac_select_is_pipeline (fc : FullCfg) (p : C05.PacScript) (host : Bytes) (hb : fc.route.base = .pac p) :
+    selectWithCreds fc host =
+      if (fc.route.localhostDirect && isLocalhostNames fc.route.localhostNames host) = true then .ok none
+      else if (match fc.route.directDomains with | some rules => C05.directMatch rules host | none => false) = true then .ok none
+      else pacSelect fc.table (p.eval host) := by
+  have hsel : C05.selectProxy fc.route host =
+      if (fc.route.localhostDirect && isLocalhostNames fc.route.localhostNames host) = true then .ok none
+      else if (match fc.route.directDomains with | some rules => C05.directMatch rules host | none => false) = true then .ok none
+      else C05.pacAnswer (p.eval host) := by
+    unfold C05.selectProxy C05.proxyFunc C05.wrapDirectLocalhost C05.wrapDirectDomains
+    rw [hb]
+    simp only [C05.baseFn]
+    cases hl : fc.route.localhostDirect <;> cases hd : fc.route.directDomains <;>
+      simp [C05.pacProxy_eq_pacAnswer]
+  unfold selectWithCreds
+  simp only [hb]
+  rw [hsel]
+  by_cases h1 : (fc.route.localhostDirect && isLocalhostNames fc.route.localhostNames host) = true
+  · simp only [if_pos h1]
+  · by_cases h2 : (match fc.route.directDomains with | some rules => C05.directMatch rules host | none => false) = true
+    · simp only [if_neg h1, if_pos h2]
+    · simp only [if_neg h1, if_neg h2]
+      unfold pacSelect
+      cases C05.pacAnswer (p.eval host) with
+      | error e => rfl
+      | ok o => cases o <;> rfl
+
+/-- one proxy instance serving a list of requests attaches to each what it attaches to it alone -/
+theorem c06_pac_credentials_seq_pointwise (t : Option CredTable) (st : C05.InstState) (rs : List C05.PacResult) :
+    pacCredSeq t st rs = rs.map (pacSelect t) :=
+  pacCredSeq_eq_map t st rs
+
+/-- History independence of the PAC-credential lookup: whatever was served before (`pre`: other
+    proxies, the same proxy, failures), from whatever pool state, and whatever comes after, the
+    request in position `pre.length` is handed the proxy URL `pacSelect t r`; and the credentials in
+    it are the table's answer for that proxy's own host:port — a function of (table, host:port)
+    only, not even of the proxy's scheme -/
+theorem c06_pac_credentials_history_independent (t : Option CredTable) (st : C05.InstState)
+    (pre post : List C05.PacResult) (r : C05.PacResult) :
+    (pacCredSeq t st (pre ++ r :: post))[pre.length]? = some (pacSelect t r) ∧
+    (∀ u, C05.pacAnswer r = .ok (some u) →
+      ∃ h p, u.host = netJoinHostPort h p ∧
+        pacSelect t r = .ok (some { u with user := matchHostport t (netJoinHostPort h p) })) := by
+  constructor
+  · rw [pacCredSeq_eq_map]; simp
+  · intro u hu
+    obtain ⟨h, p, hh, _, hp, huser⟩ := pacAnswer_shape hu
+    refine ⟨h, p, hh, ?_⟩
+    have hl := pacLookup_of_host t hh hp
+    unfold pacLookup at hl
+    unfold pacSelect pacAttach
+    rw [hu]
+    simp only [hl]
+    cases matchHostport t (netJoinHostPort h p) with
+    | some c => rfl
+    | none =>
+      simp only []
+      cases u
+      simp only at huser
+      subst huser
+      rfl
+
+/-- the same request (script answer) repeated is handed the same credentials each time, whatever
+    lies between -/
+theorem c06_pac_credentials_repeat_stable (t : Option CredTable) (st : C05.InstState)
+    (pre mid post : List C05.PacResult) (r : C05.PacResult) :
+    (pacCredSeq t st (pre ++ r :: (mid ++ r :: post)))[pre.length]? =
+      (pacCredSeq t st (pre ++ r :: (mid ++ r :: post)))[pre.length + 1 + mid.length]? := by
+  have h1 := (c06_pac_credentials_history_independent t st pre (mid ++ r :: post) r).1
+  have h2 := (c06_pac_credentials_history_independent t st (pre ++ r :: mid) post r).1
+  simp only [List.append_assoc, List.cons_append, List.length_append, List.length_cons] at h2
+  rw [h1, ← Nat.add_assoc] at *
+  rw [Nat.add_right_comm pre.length mid.length 1] at h2
+  exact h2.symm
+
+/-- a proxy address as the PAC path produces it (`pacAnswer_shape`) that a `--credentials` entry can
+    name exactly: the host is not `*`, the port not `0` -/
+def PacProxyAddr (u : ProxyURL) : Prop :=
+  ∃ h p, u.host = netJoinHostPort h p ∧ C05.validHost h = true ∧ C05.validPort p = true ∧ h ≠ star ∧ p ≠ zero
+
+/-- the lookup reads the proxy's host:port only: two selected proxies with the same host:port get
+    the same answer from every table, whatever their schemes (`PROXY` vs `HTTPS` on one address) -/
+theorem c06_pac_lookup_same_hostport (t : Option CredTable) {u u' : ProxyURL} (hu : PacProxyAddr u)
+    (h : u.host = u'.host) : pacLookup t u = pacLookup t u' := by
+  obtain ⟨hst, p, hh, _, hp, _, _⟩ := hu
+  rw [pacLookup_of_host t hh hp, pacLookup_of_host t (h ▸ hh) hp]
+
+/-- The lookup is keyed by host:port: two selected proxies with DIFFERENT host:port — the same host
+    under two ports, the same port on two hosts, two spellings of one name — are looked up
+    independently: for any pair of answers (a credential or none, each) there is a credentials
+    table under which the first proxy gets the first and the second the second.  So nothing that
+    is known about one lookup says anything about the other. -/
+theorem c06_pac_lookup_keyed_by_hostport {u u' : ProxyURL} (hu : PacProxyAddr u) (hu' : PacProxyAddr u')
+    (hne : u.host ≠ u'.host) (a a' : Option Cred)
+    (ha : ∀ c, a = some c → c.1 ≠ []) (ha' : ∀ c, a' = some c → c.1 ≠ []) :
+    ∃ es t, buildTable es = some t ∧ pacLookup t u = a ∧ pacLookup t u' = a' := by
+  obtain ⟨h, p, hh, hvh, hvp, hs, hz⟩ := hu
+  obtain ⟨h', p', hh', hvh', hvp', hs', hz'⟩ := hu'
+  rw [hh, hh'] at hne
+  have valid : ∀ (x y : Bytes) (c : Cred), C05.validHost x = true → C05.validPort y = true → c.1 ≠ [] →
+      (CredEntry.mk x y c).valid = true := by
+    intro x y c hx hy hc
+    have h1 := validHost_ne_nil hx
+    have h2 := (validPort_digits hy).1
+    unfold CredEntry.valid
+    cases x <;> cases y <;> cases hc' : c.1 <;> simp_all
+  have hk : (netJoinHostPort h p == netJoinHostPort h' p') = false := by simpa using hne
+  have hk' : (netJoinHostPort h' p' == netJoinHostPort h p) = false := by simpa using fun e => hne e.symm
+  cases a with
+  | none =>
+    cases a' with
+    | none =>
+      refine ⟨[], none, rfl, ?_, ?_⟩ <;> rfl
+    | some c' =>
+      refine ⟨[⟨h', p', c'⟩], _, buildTable_exact1 _ (valid _ _ _ hvh' hvp' (ha' c' rfl)) hs' hz', ?_, ?_⟩
+      · simp only [pacLookup_of_host _ hh hvp, matchHostport, matchHostport_exact_only, List.lookup, hk]
+      · simp only [pacLookup_of_host _ hh' hvp', matchHostport, matchHostport_exact_only, List.lookup, beq_self_eq_true]
+  | some c =>
+    cases a' with
+    | none =>
+      refine ⟨[⟨h, p, c⟩], _, buildTable_exact1 _ (valid _ _ _ hvh hvp (ha c rfl)) hs hz, ?_, ?_⟩
+      · simp only [pacLookup_of_host _ hh hvp, matchHostport, matchHostport_exact_only, List.lookup, beq_self_eq_true]
+      · simp only [pacLookup_of_host _ hh' hvp', matchHostport, matchHostport_exact_only, List.lookup, hk']
+    | some c' =>
+      refine ⟨[⟨h, p, c⟩, ⟨h', p', c'⟩], _, buildTable_exact2 _ _ (valid _ _ _ hvh hvp (ha c rfl)) hs hz
+        (valid _ _ _ hvh' hvp' (ha' c' rfl)) hs' hz' hne, ?_, ?_⟩
+      · simp only [pacLookup_of_host _ hh hvp, matchHostport, matchHostport_exact_only, List.lookup, beq_self_eq_true]
+      · simp only [pacLookup_of_host _ hh' hvp', matchHostport, matchHostport_exact_only, List.lookup, hk', beq_self_eq_true]
+
+/-- serving the lookups through a memo keyed by `key` is the same as looking each proxy up afresh,
+    for every sequence of selected proxies, exactly when equal keys mean equal answers.  (The proxy
+    has no such memo; this says which memos would be harmless under table `t`.) -/
+theorem c06_pac_memo_sound_iff {κ : Type} [DecidableEq κ] (key : ProxyURL → κ) (t : Option CredTable) :
+    (∀ us, pacLookupMemo key t us = us.map (pacLookup t)) ↔
+      (∀ u u', key u = key u' → pacLookup t u' = pacLookup t u) := by
+  unfold pacLookupMemo
+  constructor
+  · intro h u u' hk
+    have := h [u, u']
+    simp only [C05.memoRun, C05.assoc, if_true, hk, List.map_cons, List.map_nil, List.cons.injEq, and_true, true_and] at this
+    exact this.symm
+  · intro hs us
+    exact C05.memoRun_eq_map (fun q q' hk _ => hs q q' hk) [] (by intro e he; cases he) us
+
+/-- a memo keyed by the proxy's full host:port is harmless under every table, on every sequence of
+    PAC-selected proxies … -/
+theorem c06_pac_memo_by_hostport_sound (t : Option CredTable) (us : List ProxyURL) (hus : ∀ u ∈ us, PacProxyAddr u) :
+    pacLookupMemo (fun u => u.host) t us = us.map (pacLookup t) := by
+  unfold pacLookupMemo
+  exact memoRun_eq_map_on PacProxyAddr (fun q q' hq _ hk _ => (c06_pac_lookup_same_hostport t hq hk).symm) []
+    (by intro e he; cases he) us hus
+
+/-- … and a memo that is harmless under every table must tell proxies with different host:port
+    apart: a key that two such proxies share (the bare host name, the port alone, a case-folded
+    name) serves one of them the other's answer under some table -/
+theorem c06_pac_memo_key_separates {κ : Type} [DecidableEq κ] (key : ProxyURL → κ)
+    (hsound : ∀ es t, buildTable es = some t → ∀ us, (∀ u ∈ us, PacProxyAddr u) →
+      pacLookupMemo key t us = us.map (pacLookup t))
+    {u u' : ProxyURL} (hu : PacProxyAddr u) (hu' : PacProxyAddr u') (hk : key u = key u') : u.host = u'.host := by
+  refine Classical.byContradiction fun hne => ?_
+  obtain ⟨es, t, hb, h1, h2⟩ := c06_pac_lookup_keyed_by_hostport hu hu' hne (some (bs "a", bs "pw")) none
+    (by intro c hc; cases hc; with_unfolding_all decide) (by intro c hc; cases hc)
+  have := hsound es t hb [u, u'] (by
+    intro x hx
+    simp only [List.mem_cons, List.not_mem_nil, or_false] at hx
+    rcases hx with rfl | rfl <;> assumption)
+  unfold pacLookupMemo at this
+  simp only [C05.memoRun, C05.assoc, if_true, hk, List.map_cons, List.map_nil, List.cons.injEq, and_true, true_and] at this
+  rw [h1, h2] at this
+  cases this
+
+def gwTable : List CredEntry := [⟨bs "gw.test", bs "3128", (bs "alice", bs "a-secret")⟩]
+def gwA : ProxyURL := { scheme := bs "http", host := bs "gw.test:3128" }
+def gwB : ProxyURL := { scheme := bs "http", host := bs "gw.test:3129" }
+
+/-- the host-only memo (`pac.Proxy.Host` is the bare host name, the port lives in `Port`): with one
+    `--credentials` entry for `gw.test:3128`, a script that selects `PROXY gw.test:3128` for one
+    request and `PROXY gw.test:3129` for the next makes the memoising instance send
+    `gw.test:3128`'s Proxy-Authorization to `gw.test:3129`, which has no entry; visited in the other
+    order, `gw.test:3128` never gets its credentials.  The model sends each proxy its own. -/
+theorem c06_host_memo_witness :
+    C05.pacAnswer (.ok (bs "PROXY gw.test:3128")) = .ok (some gwA) ∧
+    C05.pacAnswer (.ok (bs "PROXY gw.test:3129; DIRECT")) = .ok (some gwB) ∧
+    (buildTable gwTable).isSome = true ∧
+    (let t := (buildTable gwTable).getD none
+     let memo := pacLookupMemo (fun u : ProxyURL => hostname u.host) t
+     ([gwA, gwB].zipWith proxyAuthFor (memo [gwA, gwB]) =
+        [some (bs "Basic YWxpY2U6YS1zZWNyZXQ="), some (bs "Basic YWxpY2U6YS1zZWNyZXQ=")] ∧
+      [gwB, gwA].zipWith proxyAuthFor (memo [gwB, gwA]) = [none, none] ∧
+      [gwA, gwB].zipWith proxyAuthFor ([gwA, gwB].map (pacLookup t)) = [some (bs "Basic YWxpY2U6YS1zZWNyZXQ="), none] ∧
+      pacCredSeq t {} [.ok (bs "PROXY gw.test:3129; DIRECT"), .ok (bs "PROXY gw.test:3128"), .ok (bs "PROXY gw.test:3129; DIRECT")] =
+        [.ok (some gwB), .ok (some { gwA with user := some (bs "alice", bs "a-secret") }), .ok (some gwB)])) := by
+  with_unfolding_all decide
+
+-- two PAC proxies on one host under different ports are both `PacProxyAddr`, with different host:port
+example : PacProxyAddr gwA ∧ PacProxyAddr gwB ∧ gwA.host ≠ gwB.host :=
+  ⟨⟨bs "gw.test", bs "3128", by with_unfolding_all decide⟩, ⟨bs "gw.test", bs "3129", by with_unfolding_all decide⟩,
+   by with_unfolding_all decide⟩
 
 end C06
 end FwdVerif
